@@ -2,7 +2,8 @@
 C10 — stage 2 of the schema model (DESIGN §3): schemas with named references and an environment; the
 validator is fuel-indexed, `diverge` = out of fuel (in Go: unbounded recursion → fatal stack overflow).
 Fragment: leaves, the *unguarded* positions `not`, `anyOf` (first success ends the loop) and `allOf` (the same
-value is visited again), the *guarded* position `items` (a strictly smaller value is visited), `$ref`, and one
+value is visited again), the *guarded* positions `items`, `properties` and `additionalProperties` given as a schema
+(a strictly smaller value is visited: an element of the array, a member of the object), `$ref`, and one
 bit `own` = "the schema carries a keyword of its own" (which makes `Schema.IsEmpty` answer at once). The order is
 the order of `visitJSON`: not, anyOf, allOf, then the typed part (items); an error ends the visit.
 
@@ -26,10 +27,12 @@ namespace KinModel.NoPanic.Recursion
 inductive J where
   | num (n : Nat)
   | arr (xs : List J)
+  | obj (fields : List (Nat × J))       -- keys are names (numbers); the list is in the order of the sorted keys
 
 inductive S where
   | leaf (acceptNum : Bool)
   | node (own : Bool) (nt : Option S) (anyOf : List S) (allOf : List S) (items : Option S)
+         (props : List (Nat × S)) (addl : Option S)      -- properties, additionalProperties given as a schema
   | ref (name : Nat)
 
 abbrev Env := Nat → Option S
@@ -84,11 +87,13 @@ def isEmpty (Γ : Env) : Nat → S → Res
   | 0, _ => .diverge
   | _ + 1, .leaf a => .ok a
   | fuel + 1, .ref x => (match Γ x with | none => .ok true | some s => isEmpty Γ fuel s)
-  | fuel + 1, .node own nt anyOf allOf items =>
+  | fuel + 1, .node own nt anyOf allOf items props addl =>
     if own then .ok false
     else Res.andT (match nt with | none => Res.ok true | some s => isEmpty Γ fuel s) fun _ =>
-          Res.andT (match items with | none => Res.ok true | some s => isEmpty Γ fuel s) fun _ =>
-            Res.andT (isEmptyAll Γ fuel anyOf) fun _ => isEmptyAll Γ fuel allOf
+          Res.andT (match addl with | none => Res.ok true | some s => isEmpty Γ fuel s) fun _ =>
+            Res.andT (match items with | none => Res.ok true | some s => isEmpty Γ fuel s) fun _ =>
+              Res.andT (isEmptyAll Γ fuel (props.map (·.2))) fun _ =>
+                Res.andT (isEmptyAll Γ fuel anyOf) fun _ => isEmptyAll Γ fuel allOf
 def isEmptyAll (Γ : Env) : Nat → List S → Res
   | _, [] => .ok true
   | 0, _ :: _ => .diverge
@@ -97,21 +102,23 @@ end
 
 /-- `hasSubSchemas` -/
 def hasSub : S → Bool
-  | .node _ nt anyOf allOf items => nt.isSome || !anyOf.isEmpty || !allOf.isEmpty || items.isSome
+  | .node _ nt anyOf allOf items props addl =>
+    nt.isSome || !anyOf.isEmpty || !allOf.isEmpty || items.isSome || !props.isEmpty || addl.isSome
   | _ => false
 
 mutual
 def visit (Γ : Env) : Nat → S → J → Res
   | 0, _, _ => .diverge
-  | _ + 1, .leaf a, v => (match v with | .num _ => .ok a | .arr _ => .ok true)
+  | _ + 1, .leaf a, v => (match v with | .num _ => .ok a | _ => .ok true)
   | fuel + 1, .ref x, v => (match Γ x with | none => .ok false | some s => visit Γ fuel s v)
-  | fuel + 1, .node _ nt anyOf allOf items, v =>
+  | fuel + 1, .node _ nt anyOf allOf items props addl, v =>
     (match nt with | none => Res.ok true | some s => (visit Γ fuel s v).neg).andT fun _ =>
       (match anyOf with | [] => Res.ok true | _ :: _ => visitAny Γ fuel anyOf v).andT fun _ =>
         (visitAll Γ fuel allOf v).andT fun _ =>
-          (match v, items with
-           | .arr xs, some s => visitItems Γ fuel s xs
-           | _, _ => .ok true)
+          (match v with
+           | .arr xs => (match items with | some s => visitItems Γ fuel s xs | none => .ok true)
+           | .obj fs => visitFields Γ fuel props addl fs
+           | .num _ => .ok true)
 def visitAny (Γ : Env) : Nat → List S → J → Res
   | _, [], _ => .ok false
   | 0, _ :: _, _ => .diverge
@@ -124,6 +131,16 @@ def visitItems (Γ : Env) : Nat → S → List J → Res
   | _, _, [] => .ok true
   | 0, _, _ :: _ => .diverge
   | fuel + 1, s, x :: xs => (visit Γ fuel s x).andT fun _ => visitItems Γ fuel s xs
+/-- `visitJSONObject`: one loop over the value's keys in sorted order; a declared property is visited with its own
+    schema, any other key with the additionalProperties schema when there is one -/
+def visitFields (Γ : Env) : Nat → List (Nat × S) → Option S → List (Nat × J) → Res
+  | _, _, _, [] => .ok true
+  | 0, _, _, _ :: _ => .diverge
+  | fuel + 1, props, addl, kv :: fs =>
+    (match props.lookup kv.1, addl with
+     | some s, _ => visit Γ fuel s kv.2
+     | none, some s => visit Γ fuel s kv.2
+     | none, none => Res.ok true).andT fun _ => visitFields Γ fuel props addl fs
 end
 
 /-- "decided": some fuel gives an answer -/
@@ -158,18 +175,20 @@ theorem visit_mono_ok (Γ : Env) : ∀ fuel,
     (∀ s v b, visit Γ fuel s v = .ok b → visit Γ (fuel + 1) s v = .ok b) ∧
     (∀ ss v b, visitAny Γ fuel ss v = .ok b → visitAny Γ (fuel + 1) ss v = .ok b) ∧
     (∀ ss v b, visitAll Γ fuel ss v = .ok b → visitAll Γ (fuel + 1) ss v = .ok b) ∧
-    (∀ s xs b, visitItems Γ fuel s xs = .ok b → visitItems Γ (fuel + 1) s xs = .ok b) := by
+    (∀ s xs b, visitItems Γ fuel s xs = .ok b → visitItems Γ (fuel + 1) s xs = .ok b) ∧
+    (∀ ps ad fs b, visitFields Γ fuel ps ad fs = .ok b → visitFields Γ (fuel + 1) ps ad fs = .ok b) := by
   intro fuel
   induction fuel with
   | zero =>
-    refine ⟨?_, ?_, ?_, ?_⟩
+    refine ⟨?_, ?_, ?_, ?_, ?_⟩
     · intro s v b h; simp [visit] at h
     · intro ss v b h; cases ss <;> simp [visitAny] at h ⊢; exact h
     · intro ss v b h; cases ss <;> simp [visitAll] at h ⊢; exact h
     · intro s xs b h; cases xs <;> simp [visitItems] at h ⊢; exact h
+    · intro ps ad fs b h; cases fs <;> simp [visitFields] at h ⊢; exact h
   | succ n ih =>
-    obtain ⟨ihV, ihY, ihA, ihI⟩ := ih
-    refine ⟨?_, ?_, ?_, ?_⟩
+    obtain ⟨ihV, ihY, ihA, ihI, ihF⟩ := ih
+    refine ⟨?_, ?_, ?_, ?_, ?_⟩
     · intro s v b h
       cases s with
       | leaf a => simpa [visit] using h
@@ -178,7 +197,7 @@ theorem visit_mono_ok (Γ : Env) : ∀ fuel,
         cases hg : Γ x with
         | none => simpa [hg] using h
         | some s' => simp only [hg] at h ⊢; exact ihV s' v b h
-      | node own nt anyOf allOf items =>
+      | node own nt anyOf allOf items props addl =>
         simp only [visit, Res.andT_eq, Res.orT_eq] at h ⊢
         refine andMono _ _ _ _ b ?_ ?_ h
         · intro x hx
@@ -200,6 +219,7 @@ theorem visit_mono_ok (Γ : Env) : ∀ fuel,
               cases items with
               | none => simpa using hz
               | some s' => simp only at hz ⊢; exact ihI s' xs z hz
+            | obj fs => simp only at hz ⊢; exact ihF props addl fs z hz
     · intro ss v b h
       cases ss with
       | nil => simpa [visitAny] using h
@@ -218,20 +238,35 @@ theorem visit_mono_ok (Γ : Env) : ∀ fuel,
       | cons x xs =>
         simp only [visitItems, Res.andT_eq, Res.orT_eq] at h ⊢
         exact andMono _ _ _ _ b (fun y hy => ihV s x y hy) (fun y hy => ihI s xs y hy) h
+    · intro ps ad fs b h
+      cases fs with
+      | nil => simpa [visitFields] using h
+      | cons kv fs =>
+        simp only [visitFields, Res.andT_eq, Res.orT_eq] at h ⊢
+        refine andMono _ _ _ _ b ?_ (fun y hy => ihF ps ad fs y hy) h
+        intro y hy
+        cases hl : ps.lookup kv.1 with
+        | some s' => simp only [hl] at hy ⊢; exact ihV s' kv.2 y hy
+        | none =>
+          cases ad with
+          | some s' => simp only [hl] at hy ⊢; exact ihV s' kv.2 y hy
+          | none => simpa [hl] using hy
 
 theorem visit_mono_k (Γ : Env) (k : Nat) :
     (∀ fuel s v b, visit Γ fuel s v = .ok b → visit Γ (fuel + k) s v = .ok b) ∧
     (∀ fuel ss v b, visitAny Γ fuel ss v = .ok b → visitAny Γ (fuel + k) ss v = .ok b) ∧
     (∀ fuel ss v b, visitAll Γ fuel ss v = .ok b → visitAll Γ (fuel + k) ss v = .ok b) ∧
-    (∀ fuel s xs b, visitItems Γ fuel s xs = .ok b → visitItems Γ (fuel + k) s xs = .ok b) := by
+    (∀ fuel s xs b, visitItems Γ fuel s xs = .ok b → visitItems Γ (fuel + k) s xs = .ok b) ∧
+    (∀ fuel ps ad fs b, visitFields Γ fuel ps ad fs = .ok b → visitFields Γ (fuel + k) ps ad fs = .ok b) := by
   induction k with
-  | zero => exact ⟨fun _ _ _ _ h => h, fun _ _ _ _ h => h, fun _ _ _ _ h => h, fun _ _ _ _ h => h⟩
+  | zero => exact ⟨fun _ _ _ _ h => h, fun _ _ _ _ h => h, fun _ _ _ _ h => h, fun _ _ _ _ h => h, fun _ _ _ _ _ h => h⟩
   | succ k ih =>
-    obtain ⟨i1, i2, i3, i4⟩ := ih
+    obtain ⟨i1, i2, i3, i4, i5⟩ := ih
     exact ⟨fun f s v b h => (visit_mono_ok Γ (f + k)).1 s v b (i1 f s v b h),
            fun f ss v b h => (visit_mono_ok Γ (f + k)).2.1 ss v b (i2 f ss v b h),
            fun f ss v b h => (visit_mono_ok Γ (f + k)).2.2.1 ss v b (i3 f ss v b h),
-           fun f s xs b h => (visit_mono_ok Γ (f + k)).2.2.2 s xs b (i4 f s xs b h)⟩
+           fun f s xs b h => (visit_mono_ok Γ (f + k)).2.2.2.1 s xs b (i4 f s xs b h),
+           fun f ps ad fs b h => (visit_mono_ok Γ (f + k)).2.2.2.2 ps ad fs b (i5 f ps ad fs b h)⟩
 
 theorem visit_mono_le (Γ : Env) {n m : Nat} (h : n ≤ m) (s : S) (v : J) (b : Bool)
     (hv : visit Γ n s v = .ok b) : visit Γ m s v = .ok b := by
@@ -243,10 +278,23 @@ mutual
 def sizeJ : J → Nat
   | .num _ => 1
   | .arr xs => 1 + sizeJL xs
+  | .obj fs => 1 + sizeJF fs
 def sizeJL : List J → Nat
   | [] => 0
   | x :: xs => sizeJ x + sizeJL xs
+def sizeJF : List (Nat × J) → Nat
+  | [] => 0
+  | kv :: fs => sizeJ kv.2 + sizeJF fs
 end
+
+theorem sizeJF_mem : ∀ (fs : List (Nat × J)) (kv : Nat × J), kv ∈ fs → sizeJ kv.2 ≤ sizeJF fs
+  | [], _, h => by simp at h
+  | y :: ys, x, h => by
+    simp only [List.mem_cons] at h
+    simp only [sizeJF]
+    rcases h with rfl | h
+    · omega
+    · have := sizeJF_mem ys x h; omega
 
 theorem sizeJ_mem : ∀ (xs : List J) (x : J), x ∈ xs → sizeJ x ≤ sizeJL xs
   | [], _, h => by simp at h
@@ -261,13 +309,17 @@ mutual
 def sizeS : S → Nat
   | .leaf _ => 1
   | .ref _ => 1
-  | .node _ nt anyOf allOf items => 1 + sizeSO nt + sizeSL anyOf + sizeSL allOf + sizeSO items
+  | .node _ nt anyOf allOf items props addl =>
+    1 + sizeSO nt + sizeSL anyOf + sizeSL allOf + sizeSO items + sizeSP props + sizeSO addl
 def sizeSO : Option S → Nat
   | none => 0
   | some s => sizeS s
 def sizeSL : List S → Nat
   | [] => 0
   | s :: ss => sizeS s + sizeSL ss
+def sizeSP : List (Nat × S) → Nat
+  | [] => 0
+  | ks :: ps => sizeS ks.2 + sizeSP ps
 end
 
 theorem sizeS_mem : ∀ (ss : List S) (s : S), s ∈ ss → sizeS s ≤ sizeSL ss
@@ -284,7 +336,7 @@ mutual
 def ur : S → List Nat
   | .leaf _ => []
   | .ref x => [x]
-  | .node _ nt anyOf allOf _ => urO nt ++ urL anyOf ++ urL allOf
+  | .node _ nt anyOf allOf _ _ _ => urO nt ++ urL anyOf ++ urL allOf
 def urO : Option S → List Nat
   | none => []
   | some s => ur s
@@ -345,9 +397,40 @@ theorem decItems (Γ : Env) (s : S) : ∀ (xs : List J), (∀ x ∈ xs, ∃ n b,
     refine ⟨n1 + n2 + 1, ?_⟩
     have e1 : visit Γ (n1 + n2) s x = .ok b1 := (visit_mono_k Γ n2).1 n1 s x b1 h1
     have e2 : visitItems Γ (n1 + n2) s xs = .ok b2 := by
-      have := (visit_mono_k Γ n1).2.2.2 n2 s xs b2 h2
+      have := (visit_mono_k Γ n1).2.2.2.1 n2 s xs b2 h2
       rwa [Nat.add_comm] at this
     simp only [visitItems, Res.andT_eq, Res.orT_eq, e1, e2]
+    cases b1 <;> simp [Res.and]
+
+theorem fields_mono_le (Γ : Env) {n m : Nat} (h : n ≤ m) (ps : List (Nat × S)) (ad : Option S) (fs : List (Nat × J))
+    (b : Bool) (hv : visitFields Γ n ps ad fs = .ok b) : visitFields Γ m ps ad fs = .ok b := by
+  obtain ⟨k, rfl⟩ := Nat.exists_eq_add_of_le h
+  exact (visit_mono_k Γ k).2.2.2.2 n ps ad fs b hv
+
+theorem decFields (Γ : Env) (ps : List (Nat × S)) (ad : Option S) : ∀ (fs : List (Nat × J)),
+    (∀ kv ∈ fs, ∀ s, ∃ n b, visit Γ n s kv.2 = .ok b) → ∃ n b, visitFields Γ n ps ad fs = .ok b
+  | [], _ => ⟨0, true, by simp [visitFields]⟩
+  | kv :: fs, h => by
+    obtain ⟨n2, b2, h2⟩ := decFields Γ ps ad fs (fun t ht => h t (List.mem_cons_of_mem _ ht))
+    have hkv := h kv (List.mem_cons_self ..)
+    have h1 : ∃ n1 b1, ∀ m, n1 ≤ m → (match ps.lookup kv.1, ad with
+          | some s, _ => visit Γ m s kv.2
+          | none, some s => visit Γ m s kv.2
+          | none, none => Res.ok true) = .ok b1 := by
+      cases hl : ps.lookup kv.1 with
+      | some s' =>
+        obtain ⟨n, b, e⟩ := hkv s'
+        exact ⟨n, b, fun m hm => by simpa using visit_mono_le Γ hm s' kv.2 b e⟩
+      | none =>
+        cases ad with
+        | some s' =>
+          obtain ⟨n, b, e⟩ := hkv s'
+          exact ⟨n, b, fun m hm => by simpa using visit_mono_le Γ hm s' kv.2 b e⟩
+        | none => exact ⟨0, true, fun _ _ => rfl⟩
+    obtain ⟨n1, b1, m1⟩ := h1
+    refine ⟨n1 + n2 + 1, ?_⟩
+    have e2 : visitFields Γ (n1 + n2) ps ad fs = .ok b2 := fields_mono_le Γ (by omega) ps ad fs b2 h2
+    simp only [visitFields, Res.andT_eq, Res.orT_eq, m1 (n1 + n2) (by omega), e2]
     cases b1 <;> simp [Res.and]
 
 /-- combining four decided parts of a node -/
@@ -368,6 +451,7 @@ theorem decNode (a b c d : Nat → Res)
 theorem sizeJ_pos : ∀ v, 1 ≤ sizeJ v
   | .num _ => by simp [sizeJ]
   | .arr _ => by simp [sizeJ]
+  | .obj _ => by simp [sizeJ]
 theorem sizeS_pos : ∀ s, 1 ≤ sizeS s
   | .leaf _ => by simp [sizeS]
   | .ref _ => by simp [sizeS]
@@ -397,13 +481,14 @@ theorem all_mono_le (Γ : Env) {n m : Nat} (h : n ≤ m) (ss : List S) (v : J) (
 theorem items_mono_le (Γ : Env) {n m : Nat} (h : n ≤ m) (s : S) (xs : List J) (b : Bool)
     (hv : visitItems Γ n s xs = .ok b) : visitItems Γ m s xs = .ok b := by
   obtain ⟨k, rfl⟩ := Nat.exists_eq_add_of_le h
-  exact (visit_mono_k Γ k).2.2.2 n s xs b hv
+  exact (visit_mono_k Γ k).2.2.2.1 n s xs b hv
 
 /-- one value, one rank bound: every schema whose unguarded references have rank < r is decided, given that
     definitions of rank < r are decided on this value and everything is decided on smaller values -/
 theorem step (Γ : Env) (rk : Nat → Nat) (v : J) (r : Nat)
     (hRef : ∀ x, rk x < r → ∀ s', Γ x = some s' → ∃ n b, visit Γ n s' v = .ok b)
-    (hSmall : ∀ xs, v = .arr xs → ∀ x ∈ xs, ∀ s', ∃ n b, visit Γ n s' x = .ok b) :
+    (hSmall : ∀ xs, v = .arr xs → ∀ x ∈ xs, ∀ s', ∃ n b, visit Γ n s' x = .ok b)
+    (hSmallF : ∀ fs, v = .obj fs → ∀ kv ∈ fs, ∀ s', ∃ n b, visit Γ n s' kv.2 = .ok b) :
     ∀ M s, sizeS s ≤ M → (∀ y ∈ ur s, rk y < r) → ∃ n b, visit Γ n s v = .ok b := by
   intro M
   induction M with
@@ -419,7 +504,7 @@ theorem step (Γ : Env) (rk : Nat → Nat) (v : J) (r : Nat)
       | some s' =>
         obtain ⟨n, b, h⟩ := hRef x hx s' hg
         exact ⟨n + 1, b, by simp [visit, hg, h]⟩
-    | node own nt anyOf allOf items =>
+    | node own nt anyOf allOf items props addl =>
       simp only [sizeS] at hs
       have hurN : ∀ y ∈ urO nt, rk y < r := fun y hy => hur y (by simp [ur, hy])
       have hurY : ∀ y ∈ urL anyOf, rk y < r := fun y hy => hur y (by simp [ur, hy])
@@ -441,7 +526,10 @@ theorem step (Γ : Env) (rk : Nat → Nat) (v : J) (r : Nat)
       have hc : ∃ n x, visitAll Γ n allOf v = .ok x :=
         decAll Γ v allOf (fun t ht =>
           ih t (by have := sizeS_mem allOf t ht; omega) (fun y hy => hurA y (urL_mem allOf t ht y hy)))
-      have hd : ∃ n x, (match v, items with | .arr xs, some s => visitItems Γ n s xs | _, _ => Res.ok true) = .ok x := by
+      have hd : ∃ n x, (match v with
+          | .arr xs => (match items with | some s => visitItems Γ n s xs | none => Res.ok true)
+          | .obj fs => visitFields Γ n props addl fs
+          | .num _ => Res.ok true) = .ok x := by
         cases v with
         | num k => exact ⟨0, true, rfl⟩
         | arr xs =>
@@ -450,11 +538,17 @@ theorem step (Γ : Env) (rk : Nat → Nat) (v : J) (r : Nat)
           | some s' =>
             obtain ⟨n, b, h⟩ := decItems Γ s' xs (fun x hx => hSmall xs rfl x hx s')
             exact ⟨n, b, by simpa using h⟩
+        | obj fs =>
+          obtain ⟨n, b, h⟩ := decFields Γ props addl fs (fun kv hkv s' => hSmallF fs rfl kv hkv s')
+          exact ⟨n, b, by simpa using h⟩
       obtain ⟨n, x, h⟩ := decNode
         (fun n => match nt with | none => Res.ok true | some s => (visit Γ n s v).neg)
         (fun n => match anyOf with | [] => Res.ok true | _ :: _ => visitAny Γ n anyOf v)
         (fun n => visitAll Γ n allOf v)
-        (fun n => match v, items with | .arr xs, some s => visitItems Γ n s xs | _, _ => Res.ok true)
+        (fun n => match v with
+          | .arr xs => (match items with | some s => visitItems Γ n s xs | none => Res.ok true)
+          | .obj fs => visitFields Γ n props addl fs
+          | .num _ => Res.ok true)
         (by
           intro n m x hnm hx
           cases nt with
@@ -473,7 +567,8 @@ theorem step (Γ : Env) (rk : Nat → Nat) (v : J) (r : Nat)
           | arr xs =>
             cases items with
             | none => simpa using hx
-            | some s' => simp only at hx ⊢; exact items_mono_le Γ hnm s' xs x hx)
+            | some s' => simp only at hx ⊢; exact items_mono_le Γ hnm s' xs x hx
+          | obj fs => simp only at hx ⊢; exact fields_mono_le Γ hnm props addl fs x hx)
         ha hb hc hd
       exact ⟨n + 1, x, by simp only [visit, Res.andT_eq, Res.orT_eq]; exact h⟩
 
@@ -494,13 +589,19 @@ theorem ranked_decided (Γ : Env) (rk : Nat → Nat) (hR : Ranked Γ rk) :
         simp only [sizeJ] at hv
         have := sizeJ_mem xs x hx
         exact ihN x (by omega) s'
+      have hSmallF : ∀ fs, v = .obj fs → ∀ kv ∈ fs, ∀ s', ∃ n b, visit Γ n s' kv.2 = .ok b := by
+        intro fs hfs kv hkv s'
+        subst hfs
+        simp only [sizeJ] at hv
+        have := sizeJF_mem fs kv hkv
+        exact ihN kv.2 (by omega) s'
       -- induction on the rank bound
       have byRank : ∀ r, ∀ s, (∀ y ∈ ur s, rk y < r) → ∃ n b, visit Γ n s v = .ok b := by
         intro r
         induction r using Nat.strongRecOn with
         | _ r ihr =>
           intro s hur
-          refine step Γ rk v r ?_ hSmall (sizeS s) s (Nat.le_refl _) hur
+          refine step Γ rk v r ?_ hSmall hSmallF (sizeS s) s (Nat.le_refl _) hur
           intro x hx s' hg
           exact ihr (rk x) hx s' (fun y hy => hR x s' hg y hy)
       intro s
@@ -516,14 +617,14 @@ theorem ranked_never_diverges (Γ : Env) (rk : Nat → Nat) (hR : Ranked Γ rk) 
 
 /-- the shortcut is sound to leave out: on a schema without sub-schemas `IsEmpty` answers with fuel 1 -/
 theorem isEmpty_no_sub (Γ : Env) (own : Bool) (fuel : Nat) :
-    isEmpty Γ (fuel + 1) (.node own none [] [] none) = .ok (!own) := by
+    isEmpty Γ (fuel + 1) (.node own none [] [] none [] none) = .ok (!own) := by
   cases own <;> simp [isEmpty, isEmptyAll, Res.and]
 
 /-- finding #6: the unguarded self-reference `A: {allOf: [{$ref: A}]}`, with (`own`) or without a keyword of its own -/
-def Γ6 (own : Bool) : Env := fun x => if x = 0 then some (.node own none [] [.ref 0] none) else none
+def Γ6 (own : Bool) : Env := fun x => if x = 0 then some (.node own none [] [.ref 0] none [] none) else none
 
 theorem unguarded_diverges (own : Bool) (v : J) : ∀ (fuel : Nat),
-    visit (Γ6 own) fuel (.ref 0) v = .diverge ∧ visit (Γ6 own) fuel (.node own none [] [.ref 0] none) v = .diverge ∧
+    visit (Γ6 own) fuel (.ref 0) v = .diverge ∧ visit (Γ6 own) fuel (.node own none [] [.ref 0] none [] none) v = .diverge ∧
     visitAll (Γ6 own) fuel [.ref 0] v = .diverge
   | 0 => by simp [visit, visitAll]
   | fuel + 1 => by
@@ -534,11 +635,11 @@ theorem unguarded_diverges (own : Bool) (v : J) : ∀ (fuel : Nat),
     · simp only [visitAll, Res.andT_eq, Res.orT_eq, ih1]; rfl
 
 /-- the same through `not` and through `anyOf`: `A: {not: {$ref: A}}`, `A: {anyOf: [{$ref: A}]}` -/
-def ΓN : Env := fun x => if x = 0 then some (.node false (some (.ref 0)) [] [] none) else none
-def ΓY : Env := fun x => if x = 0 then some (.node false none [.ref 0] [] none) else none
+def ΓN : Env := fun x => if x = 0 then some (.node false (some (.ref 0)) [] [] none [] none) else none
+def ΓY : Env := fun x => if x = 0 then some (.node false none [.ref 0] [] none [] none) else none
 
 theorem not_cycle_diverges (v : J) : ∀ (fuel : Nat),
-    visit ΓN fuel (.ref 0) v = .diverge ∧ visit ΓN fuel (.node false (some (.ref 0)) [] [] none) v = .diverge
+    visit ΓN fuel (.ref 0) v = .diverge ∧ visit ΓN fuel (.node false (some (.ref 0)) [] [] none [] none) v = .diverge
   | 0 => by simp [visit]
   | fuel + 1 => by
     obtain ⟨ih1, ih2⟩ := not_cycle_diverges v fuel
@@ -547,7 +648,7 @@ theorem not_cycle_diverges (v : J) : ∀ (fuel : Nat),
     · simp only [visit, Res.andT_eq, Res.orT_eq, ih1]; rfl
 
 theorem anyOf_cycle_diverges (v : J) : ∀ (fuel : Nat),
-    visit ΓY fuel (.ref 0) v = .diverge ∧ visit ΓY fuel (.node false none [.ref 0] [] none) v = .diverge ∧
+    visit ΓY fuel (.ref 0) v = .diverge ∧ visit ΓY fuel (.node false none [.ref 0] [] none [] none) v = .diverge ∧
     visitAny ΓY fuel [.ref 0] v = .diverge
   | 0 => by simp [visit, visitAny]
   | fuel + 1 => by
@@ -557,13 +658,27 @@ theorem anyOf_cycle_diverges (v : J) : ∀ (fuel : Nat),
     · simp only [visit, Res.andT_eq, Res.orT_eq, ih3]; rfl
     · simp only [visitAny, Res.andT_eq, Res.orT_eq, ih1]; rfl
 
+/-- `Labels: {additionalProperties: {$ref: Labels}}` (the class of the seeded change C10-r3m2): guarded, so `visit`
+    decides it on every value (`guardedB` accepts it, `Props.C10`), while `Schema.IsEmpty` follows the cycle without end
+    — `visitJSON` must not evaluate `IsEmpty` on it, which `hasSubSchemas` guarantees (table `SubSchemaFields`) -/
+def ΓP : Env := fun x => if x = 0 then some (.node false none [] [] none [] (some (.ref 0))) else none
+
+theorem isEmpty_addl_diverges : ∀ (fuel : Nat),
+    isEmpty ΓP fuel (.ref 0) = .diverge ∧ isEmpty ΓP fuel (.node false none [] [] none [] (some (.ref 0))) = .diverge
+  | 0 => by simp [isEmpty]
+  | fuel + 1 => by
+    obtain ⟨ih1, ih2⟩ := isEmpty_addl_diverges fuel
+    refine ⟨?_, ?_⟩
+    · simpa [isEmpty, ΓP] using ih2
+    · simp only [isEmpty, Res.andT_eq, Res.orT_eq, Bool.false_eq_true, if_false, ih1]; rfl
+
 /-- `L: {items: {$ref: L}}` -/
-def ΓL (own : Bool) : Env := fun x => if x = 0 then some (.node own none [] [] (some (.ref 0))) else none
+def ΓL (own : Bool) : Env := fun x => if x = 0 then some (.node own none [] [] (some (.ref 0)) [] none) else none
 
 /-- `Schema.IsEmpty` itself still follows the cycle of `L: {items: {$ref: L}}` without end (it has no visited
     set); since 08457da `visitJSON` does not evaluate it on such a schema -/
 theorem isEmpty_diverges : ∀ (fuel : Nat),
-    isEmpty (ΓL false) fuel (.ref 0) = .diverge ∧ isEmpty (ΓL false) fuel (.node false none [] [] (some (.ref 0))) = .diverge
+    isEmpty (ΓL false) fuel (.ref 0) = .diverge ∧ isEmpty (ΓL false) fuel (.node false none [] [] (some (.ref 0)) [] none) = .diverge
   | 0 => by simp [isEmpty]
   | fuel + 1 => by
     obtain ⟨ih1, ih2⟩ := isEmpty_diverges fuel
@@ -571,10 +686,19 @@ theorem isEmpty_diverges : ∀ (fuel : Nat),
     · simpa [isEmpty, ΓL] using ih2
     · simp only [isEmpty, Res.andT_eq, Res.orT_eq, Bool.false_eq_true, if_false, ih1]; rfl
 
+/-- without declared properties and without an additionalProperties schema every field is accepted -/
+theorem fields_trivial (Γ : Env) : ∀ (fs : List (Nat × J)) (n : Nat), fs.length ≤ n → visitFields Γ n [] none fs = .ok true
+  | [], _, _ => by simp [visitFields]
+  | kv :: fs, 0, h => by simp at h
+  | kv :: fs, n + 1, h => by
+    have := fields_trivial Γ fs n (by simp only [List.length_cons] at h; omega)
+    simp [visitFields, this, Res.and]
+
 mutual
 def fuelFor : J → Nat
   | .num _ => 2
   | .arr xs => 2 + fuelForL xs
+  | .obj fs => 2 + fs.length
 def fuelForL : List J → Nat
   | [] => 0
   | x :: xs => 1 + fuelFor x + fuelForL xs
@@ -593,6 +717,11 @@ theorem guarded_terminates (own : Bool) : ∀ (v : J), visit (ΓL own) (fuelFor 
       have : xs = [] := by cases xs <;> simp_all [fuelForL]
       subst this; simp [visitAll, visitItems, Res.and]
     | succ g => rw [hx] at h; simp only [visitAll, Res.andT_eq, Res.orT_eq, Res.and]; exact h
+  | .obj fs => by
+    simp only [fuelFor]
+    rw [show 2 + fs.length = (fs.length + 1) + 1 by omega]
+    simp only [visit, Res.andT_eq, Res.orT_eq, ΓL, if_true]
+    simp [visitAll, Res.and, fields_trivial (ΓL own) fs fs.length (Nat.le_refl _)]
 theorem guarded_items (own : Bool) : ∀ (xs : List J), visitItems (ΓL own) (fuelForL xs) (.ref 0) xs = .ok true
   | [] => by simp [visitItems]
   | x :: xs => by
@@ -602,7 +731,7 @@ theorem guarded_items (own : Bool) : ∀ (xs : List J), visitItems (ΓL own) (fu
     rw [show 1 + fuelFor x + fuelForL xs = (fuelFor x + fuelForL xs) + 1 by omega]
     simp only [visitItems, Res.andT_eq, Res.orT_eq]
     have e1 := (visit_mono_k (ΓL own) (fuelForL xs)).1 _ _ _ _ h1
-    have e2 := (visit_mono_k (ΓL own) (fuelFor x)).2.2.2 _ _ _ _ h2
+    have e2 := (visit_mono_k (ΓL own) (fuelFor x)).2.2.2.1 _ _ _ _ h2
     rw [Nat.add_comm (fuelForL xs) (fuelFor x)] at e2
     rw [e1, e2]; rfl
 end
